@@ -579,6 +579,33 @@ theorem gcm_open_some_iff (E : Bytes → Bytes) (hE : ∀ b, (E b).length = 16) 
       · intro h; exact h.2.symm
     · simp [hs, ht]
 
+/-- NO HIDDEN STATE: `seal` on an AESGCM object after ANY earlier history (the shared `self._ctr`
+    sub-object left at an arbitrary position) returns the SP 800-38D value of this call's own
+    (nonce, plaintext, AAD) — the code assigns a fresh counter block to the sub-object on every call -/
+theorem gcm_seal_no_hidden_state (E : Bytes → Bytes) (hE : ∀ b, (E b).length = 16) (o : Gcm.Model.ObjS)
+    (ho : Gcm.InvS E o) (nonce p aad : Bytes) (hn : nonce.length = 12) (ha : 8 * aad.length < 2 ^ 64)
+    (hp : divceil p.length 16 + 2 ≤ 2 ^ 32) :
+    ∃ o', Gcm.Model.asealS E o nonce p aad = .ok (o', Gcm.Spec.aseal E nonce p aad) ∧ Gcm.InvS E o' :=
+  Gcm.asealS_spec E hE o ho nonce p aad hn ha hp
+
+/-- object-level stream = one-shot: ANY history of seal / open calls of any sizes on one AESGCM object
+    returns, call by call, exactly what the standard defines for that call alone -/
+theorem gcm_history_independent (E : Bytes → Bytes) (hE : ∀ b, (E b).length = 16) (cs : List Gcm.Model.Call)
+    (hv : ∀ c ∈ cs, Gcm.ValidCall c) :
+    ∃ o o', Gcm.Model.newS E = .ok o ∧
+      Gcm.Model.runCalls E o cs = .ok (o', cs.map (Gcm.specCall E)) := by
+  obtain ⟨o, h1, hi⟩ := Gcm.newS_inv E
+  obtain ⟨o', h2, _⟩ := Gcm.runCalls_spec E hE cs o hi hv
+  exact ⟨o, o', h1, h2⟩
+
+example : ∃ o o', Gcm.Model.newS (fun _ => zeros 16) = .ok o ∧
+    Gcm.Model.runCalls (fun _ => zeros 16) o [⟨true, zeros 12, [1, 2], [3]⟩, ⟨false, zeros 12, zeros 20, []⟩] =
+      .ok (o', [⟨true, zeros 12, [1, 2], [3]⟩, ⟨false, zeros 12, zeros 20, []⟩].map (Gcm.specCall (fun _ => zeros 16))) :=
+  gcm_history_independent _ (fun _ => by simp [zeros]) _ (by
+    intro c hc
+    simp only [List.mem_cons, List.not_mem_nil, or_false] at hc
+    rcases hc with rfl | rfl <;> exact ⟨by decide, by decide, by decide⟩)
+
 /-! ## AES-CCM and AES-CCM-8 (tlslite/utils/aesccm.py vs RFC 3610 / SP 800-38C), abstract block cipher `E`;
    tag length 16 or 8, the 12-byte nonce the code insists on (L = 3) -/
 
